@@ -54,10 +54,11 @@ POOL = [
     '$.zip($.skip(1)).select($[0] + $[1]).takeWhile($ < 100).toList()',        # 15 zip/skip/takeWhile
     '$.orderBy($).toList()',                                                   # 16 plain sort (short trace)
     '$.orderByDescending($).toList()',                                         # 17 a different ordering
+    "[$defaults.delete(region).len(), $defaults.get(token), $.len()]",         # 18 host data kept in the shared context
 ]
 DOCS = [[1, 1, 2, 3, 3], [3, 3, 1, 2, 2], [2, 5, 5, 1], [2, 1], [2, 1, 3], [3, 1, 2]]
 CORE_Q = [1, 2, 3, 5, 7, 8, 16, 17]
-MONITOR_Q = [(1, 0), (3, 3), (8, 0), (12, 0)]      # (statement, document)
+MONITOR_Q = [(1, 0), (3, 3), (8, 0), (12, 0), (18, 3)]      # (statement, document)
 BOUNDS = {
     'quick': 'coarse: all unordered pairs (incl. same statement twice) of an 8-statement core with preemption bound 1, 4 deep pairs with bound 2 where points**2 <= 25000 (small documents), each split into 6 disjoint shards, '
              '4 triples with bound 1; fine: 2 ordered pairs, every line event; monitor: 4 statements',
@@ -72,6 +73,8 @@ def world():
     if not _S:
         _S['eng'] = yaql.YaqlFactory().create()
         _S['root'] = yaql.create_context()
+        # hosts keep their own (raw, unconverted) data in the prepared context too
+        _S['root']['defaults'] = {'region': 'eu', 'token': 's3', 'retries': [3]}
         _S['st'] = [_S['eng'](t) for t in POOL]
     return _S
 
@@ -143,7 +146,7 @@ def shared_digest(skip_globals=()):
     h = []
     c = w['root']
     while c is not None:
-        h.append((tuple((k, id(v)) for k, v in c._data.items()),
+        h.append((tuple((k, id(v), repr(v) if isinstance(v, (dict, list, set)) else None) for k, v in c._data.items()),
                   tuple((n, tuple(sorted(id(f) for f in s))) for n, s in c._functions.items()),
                   tuple(sorted(c._exclusive_funcs)), id(c._parent_context), id(c._convention)))
         for s in c._functions.values():
@@ -451,6 +454,9 @@ def jobs(tier, seed):
             out.append(('monitor-%02d-%05d' % (i, lo), 'job_monitor', (i, d, lo, lo + mstep)))
     ep = [((1, 0), (2, 1)), ((8, 0), (8, 1))] if quick else [((a, 0), (b, 1)) for a, b in ((1, 2), (8, 8), (0, 14), (5, 5), (7, 6), (3, 3))]
     out.append(('evalpath', 'job_eval_path', (ep, 1 if quick else 2)))
+    # the measurements above evaluated statements in this (parent) process: workers must not inherit that world
+    _S.clear()
+    _base.clear()
     return out
 
 
